@@ -77,6 +77,11 @@ type WorkerResult struct {
 	WallS      float64                `json:"wall_s"`
 	FirstRun   uint64                 `json:"first_run_seed"`
 	LastRun    uint64                 `json:"last_run_seed"`
+	// Recycle: the worker stopped early because its memory grew past the
+	// limit (stores abandoned after injected faults cannot be freed); the
+	// driver starts a fresh process at NextIndex.
+	Recycle   bool `json:"recycle,omitempty"`
+	NextIndex int  `json:"next_index,omitempty"`
 	Samples    []Sample               `json:"samples"`
 	fallback   []Sample
 	Violations []ViolationReport      `json:"violations"`
@@ -312,9 +317,19 @@ func WorkerMain(t *testing.T, opt Options, fn EngineFunc) {
 		res.Digests = map[string]string{}
 	}
 	start := time.Now()
-	for i := 0; i < maxRuns; i++ {
+	startIdx := envInt("VERIF_START", 0)
+	memLimit := uint64(envInt("VERIF_MEM_LIMIT_MB", 1800)) << 20
+	for i := startIdx; i < maxRuns; i++ {
 		if time.Since(start) > budget {
 			break
+		}
+		if mode == "run" && i > startIdx && (i-startIdx)%25 == 0 {
+			var ms runtime.MemStats
+			runtime.ReadMemStats(&ms)
+			if ms.HeapInuse+ms.StackInuse > memLimit {
+				res.Recycle, res.NextIndex = true, i
+				break
+			}
 		}
 		g := uint64(i)*uint64(nworkers) + uint64(worker)
 		runSeed := Mix(base, g)
@@ -341,7 +356,7 @@ func WorkerMain(t *testing.T, opt Options, fn EngineFunc) {
 				pprof.Lookup("goroutine").WriteTo(os.Stderr, 1)
 			}
 		}
-		if i == 0 {
+		if i == startIdx {
 			res.FirstRun = runSeed
 		}
 		res.LastRun = runSeed
